@@ -974,7 +974,11 @@ func TestVerif_C04_Proc(t *testing.T) {
 		t.Skip()
 	}
 	// one directed case per shard: the multi-step fault kinds are too rare to rely on random draws in the quick tier
-	if i := veriflib.ShardIndex(); i%4 == 2 {
+	if i := veriflib.ShardIndex(); i == 1 {
+		// a wide crawl killed right after its second batch of rows was claimed: far more than a hundred rows are CLAIMED
+		// when the job is started again
+		propC04(t, c04Case{Rows: 260, Workers: 120, Assets: 0, Fault: "kill-hook", Point: "lq.get.committed", N: 2})
+	} else if i%4 == 2 {
 		// hold the write of the first / of the second asset of a page: whichever capture of the pair is started first
 		// (every other one of these with --http-timeout 0, which means "no timeout" like the default -1)
 		propC04(t, c04Case{Rows: 6 + i, Workers: 1, Assets: 2, Fault: "cdx-kill", N: i / 2, HoldOn: fmt.Sprintf("/p%d/a%d.png", i%3, (i/4)%2), HTTPTimeout: []string{"0", ""}[(i/4)%2]})
